@@ -188,3 +188,42 @@ Theorem C20_translated_not_none_indices_is_model : forall l : list (option Z),
   gen_not_none_indices l = Ret (not_none_indices l).
 Proof. exact gen_not_none_indices_eq. Qed.
 Print Assumptions C20_translated_not_none_indices_is_model.
+
+(* ==== BINARY64 (Flocq) — labelled separately: statements about real numbers, so the real-number axioms of Coq's
+        standard library are listed by Print Assumptions (ClassicalDedekindReals.sig_forall_dec, sig_not_dec,
+        FunctionalExtensionality.functional_extensionality_dep); overflow to infinity is not modelled ==== *)
+Require Import Reals Qreals.
+From Flocq Require Import Core.
+Require Import QV.C20.ProofsFloat.
+
+(* the float computation rint(RN(RN(RN(v - off) + amp) * RN((2^res - 1) / RN(2 amp)))) is monotone in v *)
+Theorem C20_float_code_monotone : forall amp off res v1 v2, (0 <= amp)%R -> (0 <= res)%Z -> (v1 <= v2)%R ->
+  (fcode amp off res v1 <= fcode amp off res v2)%Z.
+Proof. exact fcode_monotone. Qed.
+Print Assumptions C20_float_code_monotone.
+
+(* the model's rint is Flocq's round-half-even on the reals *)
+Theorem C20_rint_is_ZnearestE : forall q : Q, rint q = ZnearestE (Q2R q).
+Proof. exact rint_is_ZnearestE. Qed.
+Print Assumptions C20_rint_is_ZnearestE.
+
+(* the float code equals the exact-rational code of Model.v unless a half-way point lies between the exact scaled
+   voltage and its float value ("except at exact half-way points" alone would be false) *)
+Theorem C20_float_code_is_exact_code : forall (amp off v : Q) res, ~ (amp == 0)%Q ->
+  (forall k : Z, ~ (Rmin (xscaled (Q2R amp) (Q2R off) res (Q2R v))
+                         (RN (RN (RN (Q2R v - Q2R off) + Q2R amp) * fscale (Q2R amp) res))
+                    <= IZR k + / 2
+                    <= Rmax (xscaled (Q2R amp) (Q2R off) res (Q2R v))
+                            (RN (RN (RN (Q2R v - Q2R off) + Q2R amp) * fscale (Q2R amp) res)))%R) ->
+  fcode (Q2R amp) (Q2R off) res (Q2R v) = code1 amp off res v.
+Proof. exact fcode_is_exact_code. Qed.
+Print Assumptions C20_float_code_is_exact_code.
+
+(* representable intermediate results (the harness' dyadic inputs): the float code is the exact code *)
+Theorem C20_float_code_exact_inputs : forall amp off res v,
+  generic_format radix2 fexp (v - off) -> generic_format radix2 fexp ((v - off) + amp) ->
+  generic_format radix2 fexp (2 * amp) -> generic_format radix2 fexp (IZR (2 ^ res - 1) / (2 * amp)) ->
+  generic_format radix2 fexp (((v - off) + amp) * (IZR (2 ^ res - 1) / (2 * amp))) ->
+  fcode amp off res v = ZnearestE (xscaled amp off res v).
+Proof. exact fcode_exact_inputs. Qed.
+Print Assumptions C20_float_code_exact_inputs.
